@@ -30,7 +30,7 @@ func init() {
 			m.RunBlockStart(s, "R-BLOCKSTART") // an empty loop body is an empty body: its @else is not merged into it
 			m.RunTruthUsers(s, "R-TRUTH")
 			m.RunEvalErr(s, "R-EVALERR") // a failing condition / body / sub-expression fails the render instead of being treated as a value
-			s.RequireMin("R-LOOP", 20, "2 loop evaluators x ~9 clauses, block statement clauses")
+			s.RequireMin("R-LOOP", 5, "the two loop statements by cases, block statement clauses")
 		},
 	})
 }
